@@ -173,7 +173,10 @@ pub fn check_one(sh: &mut Shard, a: &IG, lat: &Lat, verbose: bool) {
     };
     let ipolys = polys_of(a);
     // ---------------- ear-cut (per polygon; domain: rings do not touch one another)
-    for (k, p) in polys.iter().enumerate() {
+    // (on the sheared lattice only the monotone subdivision is judged: it is built on exact predicates alone; ear-cut
+    // and the Delaunay family compute with rounded areas / snapped coordinates and are not asked to survive slivers
+    // of aspect ratio 1e9 here)
+    for (k, p) in polys.iter().enumerate().filter(|_| lat.shear == 0) {
         let ia = IG::Polygon(ipolys[k].clone());
         let pm = ia.to_model();
         let pa2 = pm.area2().n;
@@ -195,7 +198,7 @@ pub fn check_one(sh: &mut Shard, a: &IG, lat: &Lat, verbose: bool) {
         }
     }
     // ---------------- Delaunay family (default snap radius is an absolute 1e-4: lattice spacing must be >= 1)
-    if lat.sh >= 0 {
+    if lat.sh >= 0 && lat.shear == 0 {
         let cfg = || DelaunayTriangulationConfig::default();
         let run3 = |which: u8| -> Result<Result<Vec<Triangle<f64>>, String>, String> {
             call(|| match (&g, which) {
@@ -306,7 +309,12 @@ pub fn check_one(sh: &mut Shard, a: &IG, lat: &Lat, verbose: bool) {
                 'grid: for hx in (2 * x0 - 2)..=(2 * x1 + 2) {
                     for hy in (2 * y0 - 2)..=(2 * y1 + 2) {
                         let q = (Q::new(hx as i128, 2), Q::new(hy as i128, 2));
-                        let c = Coord { x: (2 * lat.ox + hx) as f64 * half, y: (2 * lat.oy + hy) as f64 * half };
+                        let c = if lat.shear != 0 {
+                            let l = lat.shear;
+                            Coord { x: ((l + 1) * hx + l * hy) as f64 * 0.5, y: (l * hx + (l - 1) * hy) as f64 * 0.5 }
+                        } else {
+                            Coord { x: (2 * lat.ox + hx) as f64 * half, y: (2 * lat.oy + hy) as f64 * half }
+                        };
                         let exp = model.loc(q) != Loc::E;
                         sh.eval(1);
                         match call(|| mp.intersects(&c)) {
@@ -334,6 +342,9 @@ pub fn check_one(sh: &mut Shard, a: &IG, lat: &Lat, verbose: bool) {
             sh.class(&format!("monotone_panic:{}:{}", if loc.contains("algorithm/monotone/") { "in_monotone" } else { "elsewhere" }, if touching { "rings_touch" } else { "rings_do_not_touch" }));
             sh.violation(&format!("monotone.panic|{}|{cls}", a.kind()), detail("monotone.panic", a, lat, "no panic".into(), p, json!({"at": loc})))
         }
+    }
+    if lat.shear != 0 {
+        sh.class("lattice:sheared");
     }
     sh.class(&format!("input:{}", a.kind()));
     if touching {
@@ -421,7 +432,8 @@ pub fn gen_input(r: &mut Rng) -> (IG, Lat) {
         }
     };
     let offs: [i64; 5] = [0, 0, 1000, -100_000_000, 1 << 30];
-    let lat = Lat { ox: *r.pick(&offs), oy: *r.pick(&offs), sh: *r.pick(&[0, 0, 0, 1, 3, 10, -2, -10]) };
+    let lat = Lat { ox: *r.pick(&offs), oy: *r.pick(&offs), sh: *r.pick(&[0, 0, 0, 1, 3, 10, -2, -10]), shear: 0 };
+    let lat = if r.chance(1, 6) { Lat::random_sheared(r) } else { lat };
     (a, lat)
 }
 
